@@ -83,6 +83,15 @@ def originOf (k : Key) : Pt := ⟨xW k, yS k⟩
     `none` = IndexError.  (Negative Python indices are not modelled.) -/
 def getLocationOf (cells : List Key) (idx : List Nat) : Option (List Key) := idx.mapM (fun i => cells[i]?)
 
+/-- get_masked (regions.py:1106, commit cf7bcb4): `mask[i] = numpy.size(self._find_location(lon, lat)) == 0` —
+    True exactly where `_find_location` returns the empty array, i.e. where no cell contains the point -/
+def getMasked (cells : List Key) (ps : List Pt) : List Bool := ps.map (fun p => (findLocation cells p).isNone)
+
+/-- AbstractBaseCatalog.filter_spatial (catalogs.py:562) on a quadtree region: `self.catalog[~mask]`, the events whose
+    mask entry is False, in catalog order -/
+def filterSpatial (cells : List Key) (ps : List Pt) : List Pt :=
+  (ps.zip (getMasked cells ps)).filterMap (fun pm => if pm.2 then none else some pm.1)
+
 /-! ### save_quadtree / genfromtxt / from_quadkeys : quadkeys as text lines -/
 
 def digitChar (d : Digit) : Char := Char.ofNat (48 + d.val)
